@@ -64,6 +64,9 @@ func b2mode(wide bool) int {
 // duplex (internal/strobe/strobe.go; the Keccak permutation itself stays atomic),
 // for the workload that runs concurrent users of clones of one transcript.
 func SelectFilesMode(repo string, mode int) ([]string, error) {
+	if mode < 0 {
+		return selectSyncImporters(repo)
+	}
 	wide := mode >= 1
 	strobeFile := filepath.Join(repo, "internal", "strobe", "strobe.go")
 	keccakFiles := map[string]bool{filepath.Join(repo, "internal", "strobe", "keccakf.go"): true, filepath.Join(repo, "internal", "strobe", "keccakf_amd64.go"): true}
@@ -114,6 +117,46 @@ var OnlyFuncs = map[string]map[string]bool{
 	"keccakf_amd64.go": {"keccakF1600Bytes": true},
 }
 
+// selectSyncImporters: mode -1, used by the builds that are otherwise uninstrumented.
+// Only files importing "sync" are copied, and only their import is re-pointed to simsync
+// (no yields): sync.Pool is non-deterministic by design, and a tree that pools objects
+// would otherwise not replay.  simsync types are plain pass-throughs outside a simulation.
+func selectSyncImporters(repo string) ([]string, error) {
+	var out []string
+	err := filepath.Walk(repo, func(p string, info os.FileInfo, err error) error {
+		if err != nil {
+			return err
+		}
+		if info.IsDir() {
+			n := info.Name()
+			if p != repo && (strings.HasPrefix(n, ".") || n == "testdata" || n == "asm") {
+				return filepath.SkipDir
+			}
+			return nil
+		}
+		if !strings.HasSuffix(p, ".go") || strings.HasSuffix(p, "_test.go") {
+			return nil
+		}
+		fset := token.NewFileSet()
+		f, err := parser.ParseFile(fset, p, nil, parser.ImportsOnly)
+		if err != nil {
+			return nil
+		}
+		for _, im := range f.Imports {
+			if path, _ := strconv.Unquote(im.Path.Value); path == "sync" {
+				out = append(out, p)
+				break
+			}
+		}
+		return nil
+	})
+	sort.Strings(out)
+	return out, err
+}
+
+// NoYields makes File splice only the imports (mode -1).
+var NoYields bool
+
 // File instruments one file; site ids start at *next.
 func File(path string, next *int) (string, []Site, error) {
 	src, err := os.ReadFile(path)
@@ -147,6 +190,9 @@ func File(path string, next *int) (string, []Site, error) {
 	// clauses themselves, not statements one may prefix
 	clauseBlocks := map[*ast.BlockStmt]bool{}
 	addList := func(list []ast.Stmt) {
+		if NoYields {
+			return
+		}
 		for _, st := range list {
 			switch st.(type) {
 			case *ast.EmptyStmt:
@@ -246,6 +292,8 @@ func Generate(repo, outDir string, wide bool) (*Result, error) {
 }
 
 func GenerateMode(repo, outDir string, mode int) (*Result, error) {
+	NoYields = mode < 0
+	defer func() { NoYields = false }()
 	files, err := SelectFilesMode(repo, mode)
 	if err != nil {
 		return nil, err
